@@ -20,5 +20,5 @@ echo
 echo "| seeded defect | check | exit | VIOLATION lines | leading signatures |"
 echo "|---|---|---|---|---|"
 sort $RES | sed -E 's/^([^ ]+) ([^ ]+) exit=([0-9]+) violations=([0-9]+) sigs=(.*)$/| \1 | \2 | \3 | \4 | \5 |/'
-} > seeded/CATCH_MATRIX.md
+} > ${CATCH_OUT:-seeded/CATCH_MATRIX.md}
 echo "missed:"; grep ' exit=0 ' $RES
